@@ -91,7 +91,7 @@ class ObjGen(lg.Gen):
                 c["fields"].append((False, False, t, fn, init))
                 fenv[fn] = (t, False, False)
             if r.random() < 0.5:
-                c["fields"].append((True, False, "int", "cnt", ("i", r.choice([0, 1, 10]))))
+                c["fields"].append((True, False, "int", "cnt" + name, ("i", r.choice([0, 1, 10]))))   # a field may not reuse an inherited name
             # constructors: 1-2 overloads by arity
             nct = r.choice([1, 1, 2])
             arities = r.sample([0, 1, 2], nct)
@@ -127,7 +127,7 @@ class ObjGen(lg.Gen):
                         val = ("v", r.choice(src)) if src and r.random() < 0.7 else self.prim_expr(f[2], penv, 1)
                         body.append(("expr", ("fset", ("this",), f[3], val)))
                 if c["fields"] and c["fields"][-1][0] and r.random() < 0.7:
-                    body.append(("expr", ("sfset", name, "cnt", ("bin", "+", ("sfld", name, "cnt"), ("i", 1)))))
+                    body.append(("expr", ("sfset", name, "cnt" + name, ("bin", "+", ("sfld", name, "cnt" + name), ("i", 1)))))
                 c["ctors"].append((params, sup, body, False))
             # methods
             self.gen_methods(c)
@@ -140,7 +140,7 @@ class ObjGen(lg.Gen):
                 if r.random() < 0.5:
                     c["dtor"].insert(1, ("echo", ("bin", "+", ("s", "note "), ("call", "note", [("i", r.randint(0, 9))]))))
                 if c["fields"] and c["fields"][-1][0] and r.random() < 0.5:
-                    c["dtor"].insert(1, ("expr", ("sfset", name, "cnt", ("bin", "-", ("sfld", name, "cnt"), ("i", 1)))))
+                    c["dtor"].insert(1, ("expr", ("sfset", name, "cnt" + name, ("bin", "-", ("sfld", name, "cnt" + name), ("i", 1)))))
 
     def gen_methods(self, c):
         r = self.r
@@ -348,7 +348,7 @@ class ObjGen(lg.Gen):
         # statics
         for c in self.classes:
             if c["fields"] and c["fields"][-1][0] and r.random() < 0.6:
-                body.append(("echo", ("sfld", c["name"], "cnt")))
+                body.append(("echo", ("sfld", c["name"], "cnt" + c["name"])))
         # static methods
         for c in self.classes:
             for m in c["meths"]:
